@@ -1045,6 +1045,9 @@ class Interp:
                     res = True
                 else:
                     res = res or isinstance(v, ty)
+            elif isinstance(kk, Sym) and isinstance(v, CONCRETE + (list, tuple, dict, set, frozenset)) and not isinstance(v, Sym) and kk.name.split(".")[-1] in _ABSTRACT_TYPES:
+                # a plain Python value against a numpy / collections.abc class
+                res = res or _ABSTRACT_TYPES[kk.name.split(".")[-1]](v)
             else:
                 return self.isinstance_hook(v, k, node)
         return res
@@ -1482,6 +1485,22 @@ class Interp:
         except (TypeError, ValueError):
             pass
         return self.external_call(name, args, kwargs, node)
+
+
+_ABSTRACT_TYPES = {
+    "integer": lambda v: False, "floating": lambda v: False, "number": lambda v: False, "generic": lambda v: False, "bool_": lambda v: False,
+    "ndarray": lambda v: False, "unsignedinteger": lambda v: False, "signedinteger": lambda v: False,
+    "Iterable": lambda v: isinstance(v, (list, tuple, dict, set, frozenset, str)),
+    "Sequence": lambda v: isinstance(v, (list, tuple, str)),
+    "Collection": lambda v: isinstance(v, (list, tuple, dict, set, frozenset, str)),
+    "Sized": lambda v: isinstance(v, (list, tuple, dict, set, frozenset, str)),
+    "Mapping": lambda v: isinstance(v, dict),
+    "Set": lambda v: isinstance(v, (set, frozenset)),
+    "Integral": lambda v: isinstance(v, int),
+    "Real": lambda v: isinstance(v, (int, float, Fraction)),
+    "Number": lambda v: isinstance(v, (int, float, Fraction)),
+    "PathLike": lambda v: False,
+}
 
 
 _BUILTIN_SYMS = {
